@@ -62,7 +62,7 @@ PROPERTIES = {
     },
     "C03": {
         "level": "proof",
-        "verus_units": ["cmp@*", "cmpfloat@*", "cmpfloatrev@*"],
+        "verus_units": ["cmp@*", "cmpfloat@*", "cmpfloatrev@*", "cmpint@*", "cmpintrev@*"],
         "kani": TFH + _mods("cmp8", ["l0", "l4", "l8"], ["i8_vs_i8", "i8_vs_u8", "u8_vs_u8"]) + CMPX + CMPINT
                 + _mods("cmp8", ["f4"], ["i8_vs_f32", "u8_vs_f32", "i8_vs_f64", "u8_vs_f64"])
                 + ["cmp8::float_derived_ops", "cmp8::i32f0_vs_f32", "float::check_kind_f32", "float::check_kind_f64"],
@@ -130,7 +130,7 @@ PROPERTIES = {
     },
     "C11": {
         "level": "proof",
-        "verus_units": ["arith_widen", "arith128", "widediv", "nofrac", "fracops", "round@*", "transc", "leaves", "cmp@*", "fromfixed@*", "fromfloat@*", "wrapping", "traitfwd@*", "intconv", "floatglue", "trig", "cmpfloat@*", "cmpfloatrev@*"],
+        "verus_units": ["arith_widen", "arith128", "widediv", "nofrac", "fracops", "round@*", "transc", "leaves", "cmp@*", "fromfixed@*", "fromfloat@*", "wrapping", "traitfwd@*", "intconv", "floatglue", "trig", "cmpfloat@*", "cmpfloatrev@*", "cmpint@*", "cmpintrev@*"],
         "kani": [{"harness": h, "classes": ["panic"]} for h in
                  _mods("arith8", ["i4f4", "i0f8", "u4f4", "u0f8"], FORMS) + ["arith8::abs_forms_i8"] + TFH
                  + ["float::check_to_f32", "float::check_to_f64", "float::check_kind_f32", "float::check_kind_f64"]
